@@ -4,8 +4,8 @@
   decoded values.  `schemasOk` is the decidable description of the fragment:
     * struct field names are distinct;
     * field / element types are scalars (not `bytes`), arrays, string-keyed maps, references to
-      structs, enums, scalar aliases (not of `any`/`bytes`), non-nullable references to
-      array/map aliases, constant references;
+      structs, enums, scalar aliases (not of `any`/`bytes`), references to array/map aliases
+      (nullable ones — `*Alias` — in struct field position), constant references;
     * a struct generated from a disjunction has nullable (or array/map) branches, none of them
       `any`; the branches of a discriminated one are nullable references to structs of the same
       package.
@@ -41,6 +41,21 @@ def posOk (ss : Schemas) : Ty → Bool
   | .cref pkg name _ _ => refOk ss pkg name false
   | _ => false
 
+/-- nullable reference to a named array / map (`*Alias`) -/
+def collPtrOk (ss : Schemas) (pkg name : String) (nullable : Bool) : Bool :=
+  nullable && (match Schemas.locateObject ss pkg name with
+               | some o => o.ty.isArray || o.ty.isMap
+               | none => false)
+
+/-- field positions: `posOk`, or a nullable reference to a named array / map -/
+def fposOk (ss : Schemas) (t : Ty) : Bool :=
+  posOk ss t || (match t with
+                 | .ref pkg name m => collPtrOk ss pkg name m.nullable
+                 | _ => false)
+
+theorem fposOk_of_posOk {ss : Schemas} {t : Ty} (h : posOk ss t = true) : fposOk ss t = true := by
+  simp [fposOk, h]
+
 def branchOk : Ty → Bool
   | .array .. | .map .. => true
   | .scalar k _ _ m => k != "any" && m.nullable
@@ -57,7 +72,7 @@ def refsBranchOk (ss : Schemas) (pkg : String) : Ty → Bool
 def objOk (ss : Schemas) (pkg : String) (o : Obj) : Bool :=
   match o.ty with
   | .struct fields _ none _ =>
-    nodupKeys (fields.map (·.name)) && fields.all (fun f => posOk ss f.ty)
+    nodupKeys (fields.map (·.name)) && fields.all (fun f => fposOk ss f.ty)
   | .struct fields _ (some (hint, _)) _ =>
     nodupKeys (fields.map (·.name)) && fields.all (fun f => posOk ss f.ty) &&
       fields.all (fun f => branchOk f.ty) &&
@@ -476,13 +491,16 @@ theorem field_eq_of_name_eq {f g : Field} :
       | inr hg' => exact field_eq_of_name_eq nd.2 hf' hg' e
 
 theorem goDecode_wt (ss : Schemas) (hs : schemasOk ss = true) :
-    ∀ (fuel : Nat) (t : Ty) (j : Json) (v : GoVal), posOk ss t = true →
+    ∀ (fuel : Nat) (t : Ty) (j : Json) (v : GoVal), fposOk ss t = true →
       goDecode fuel ss t j = .ok v → wt (fuel + 1) ss t v = true
   | 0, _, _, _, _, h => by simp [goDecode] at h
   | fuel + 1, t, j, v, hp, h => by
-    have ih := goDecode_wt ss hs fuel
+    have ihf := goDecode_wt ss hs fuel
+    have ih : ∀ (t : Ty) (j : Json) (v : GoVal), posOk ss t = true →
+        goDecode fuel ss t j = .ok v → wt (fuel + 1) ss t v = true :=
+      fun t j v hp h => ihf t j v (fposOk_of_posOk hp) h
     unfold wt
-    cases t
+    cases t <;> simp only [fposOk, Bool.or_false, Bool.or_eq_true] at hp
     case scalar kind value cs m =>
       simp only [posOk, bne_iff_ne, ne_eq] at hp
       simp only [goDecode, hp, if_false] at h
@@ -522,6 +540,26 @@ theorem goDecode_wt (ss : Schemas) (hs : schemasOk ss = true) :
         all_goals cases h
       · cases hidx
     case ref pkg name m =>
+      rcases hp with hp | hc
+      case inr =>
+        -- `*Alias`: decoded like the alias itself
+        simp only [collPtrOk, Bool.and_eq_true] at hc
+        obtain ⟨hm, hc⟩ := hc
+        cases hl : Schemas.locateObject ss pkg name with
+        | none => rw [hl] at hc; cases hc
+        | some o =>
+          simp only [hl] at hc
+          have hobj := objOk_of_locate hs hl
+          unfold objOk at hobj
+          simp only [goDecode, hl] at h
+          simp only [classify, hl]
+          cases hot : o.ty <;> rw [hot] at h hobj hc <;> simp [Ty.isArray, Ty.isMap] at hc
+          case array e om =>
+            simp only [classifyRef, hm, if_true]
+            exact ih _ j v hobj h
+          case map idx val om =>
+            simp only [classifyRef, hm, if_true]
+            exact ih _ j v hobj h
       simp only [posOk] at hp
       obtain ⟨o, hl, ho⟩ := refOk_locate hp
       have hobj := objOk_of_locate hs hl
@@ -543,7 +581,7 @@ theorem goDecode_wt (ss : Schemas) (hs : schemasOk ss = true) :
             intro members y hm
             obtain ⟨fs, hfs, rfl⟩ := DRes.map_ok hm
             simp only [Bool.and_eq_true]
-            exact ⟨hobj.1, decodeFields_wt (P := posOk ss) (fun t j v hP hd => ih t j v hP hd) _ fields fs hobj.2 hfs⟩
+            exact ⟨hobj.1, decodeFields_wt (P := fposOk ss) (fun t j v hP hd => ihf t j v hP hd) _ fields fs hobj.2 hfs⟩
           cases j <;> simp only [] at hx
           case null => exact key _ x hx
           case obj members => exact key _ x hx
